@@ -1680,6 +1680,28 @@ fn refv_lines(rng: &mut Rng, tier: Tier) -> Vec<String> {
             ("extras", per, collect_mutants(|| run_extras(&base))),
             ("chan", per, (0..24).map(|i| ("structure", chan_mutant(&base, i * 5 + k))).filter(|m| m.1 != base.bytes).collect()),
         ];
+        // the context bytes that decide the shape of everything else: every byte of the trace info and of the
+        // options x small / boundary values (these reach the AIR constructor and the channel with other shapes)
+        let mut shape: Vec<(&'static str, Vec<u8>)> = vec![];
+        for (name, len) in [("context.trace_info", 4usize), ("context.options", 6)] {
+            for i in 0..len {
+                let cur = if name == "context.trace_info" { base.pt.trace_info[i] } else { base.pt.options[i] };
+                for v in [0u8, 1, 2, 3, 4, 5, 8, 16, 32, 255, cur.wrapping_add(1), cur.wrapping_sub(1), cur.wrapping_mul(2), cur / 2] {
+                    if v == cur {
+                        continue;
+                    }
+                    let mut p = base.pt.clone();
+                    if name == "context.trace_info" {
+                        p.trace_info[i] = v;
+                    } else {
+                        p.options[i] = v;
+                    }
+                    shape.push((name, p.to_bytes()));
+                }
+            }
+        }
+        let mut fams = fams;
+        fams.push(("shape", 5 * per, shape));
         for (fam, take, mut ms) in fams {
             // sample without replacement
             let mut taken = 0;
